@@ -211,6 +211,12 @@ class Mini:
     # ---- expressions
     def ev(self, e, env):
         self.tick()
+        if e is not None and e.k == 'CStyleCastExpr' and self.obj_store and (e.t or '').replace('const ', '').replace(' ', '') in ('double*', 'int64_t*', 'long*') and e.child('sub') is not None:
+            v = self.ev(e.child('sub'), env)
+            if isinstance(v, Ptr) and not isinstance(v, DPtr) and 'Vec2' in (_strip_casts(e.child('sub')).t or '') \
+                    and ('Int' in (_strip_casts(e.child('sub')).t or '')) == ('int' in (e.t or '') or 'long' in (e.t or '')):
+                return DPtr(v.arr, 2 * v.i)        # the coordinates of an array of Vec2 (IntVec2) as a flat array of double (int64_t)
+            return v
         if e is not None and e.k in ('CStyleCastExpr', 'ImplicitCastExpr', 'CXXStaticCastExpr', 'CXXFunctionalCastExpr') and e.child('sub') is not None and self.c_ints:
             v = self.ev(e.child('sub'), env)
             if 'FloatingToIntegral' in (e.cast or ''):
@@ -224,11 +230,6 @@ class Mini:
                     if lo_ is not None and not (lo_ <= v <= hi_):
                         raise UndefinedConversion('`%s` converts %d, which the type %s cannot hold' % (e.text()[:60], v, t_))
             return _wrap(e.ct or e.t, v) if (e.cast or '') in ('IntegralCast', 'NoOp', '') or 'Integral' in (e.cast or '') else v
-        if e is not None and e.k == 'CStyleCastExpr' and self.obj_store and (e.t or '').replace('const ', '').replace(' ', '') == 'double*' and e.child('sub') is not None:
-            v = self.ev(e.child('sub'), env)
-            if isinstance(v, Ptr) and not isinstance(v, DPtr) and 'Vec2' in (_strip_casts(e.child('sub')).t or ''):
-                return DPtr(v.arr, 2 * v.i)
-            return v
         e = _strip_casts(e)
         if e is None:
             raise AnalysisBroken('mini-interpreter: empty expression')
@@ -499,7 +500,15 @@ class Mini:
                     if r is None:
                         raise AnalysisBroken('mini-interpreter: Vec2 operator `%s`' % e.text()[:50])
                 else:
-                    r = {'+=': O.add, '-=': O.sub, '*=': O.mul, '|=': O.or_, '&=': O.and_, '^=': O.xor, '<<=': O.lshift, '>>=': O.rshift}[e.op](cur, r)
+                    if e.op == '/=' and (isinstance(cur, float) or isinstance(r, float)):
+                        r = (float(cur) / float(r)) if r != 0 else (float('nan') if cur == 0 or cur != cur else (float('inf') if (cur > 0) == (str(float(r))[0] != '-') else float('-inf')))
+                    elif e.op == '/=':
+                        from fractions import Fraction as _F
+                        if r == 0:
+                            raise AnalysisBroken('mini-interpreter: division by zero in `%s`' % e.text()[:40])
+                        r = (_F(cur) / _F(r)) if 'double' in (t.t or '') or 'float' in (t.t or '') else int(_F(cur) / _F(r))
+                    else:
+                        r = {'+=': O.add, '-=': O.sub, '*=': O.mul, '|=': O.or_, '&=': O.and_, '^=': O.xor, '<<=': O.lshift, '>>=': O.rshift}[e.op](cur, r)
             tgt_env[tgt_name] = Obj(r) if isinstance(r, Obj) and e.op == '=' and '*' not in (t.t or '') else r      # (a struct is copied, a pointer to one is not)
             return r
         if k == 'InitListExpr' and self.obj_store and not _is_vec2(e.t) and self.db.records.get((e.ct or e.t or '').replace('const ', '').strip()) is not None \
